@@ -240,6 +240,14 @@ def check(rep, ctx):
         rep.check(R_ST, False, construct=m_["function"], stmt=m_["stmt"], message=f"mutates {m_['name']!r} of the enclosing {m_['outer']}",
                   file=m_["file"], line=m_["line"])
     rep.count(R_ST, len(PRIM), instance="scan")
+    R_TD = rep.rule("C11-w-time-domain", "the duration writers accept every timedelta their sibling readers can return (analysed on a plain "
+                   "datetime.timedelta, guards evaluated at the extremes)", floor=2)
+    from .wire import time_writer_domain_rows
+    for ok_, c_, stmt_, msg_, file_, line_ in time_writer_domain_rows(ctx):
+        if ok_ is None:
+            rep.limit(f"{c_}: {msg_}")
+            continue
+        rep.check(R_TD, ok_, construct=c_, stmt=stmt_, message=msg_, file=file_, line=line_)
     # every raw read of the readers module is a checked exact read ---------------------------------------------
     R_X = rep.rule("C11-exact-reads", "every read in kio.serial.readers is length-checked with equality before its bytes are used", floor=1,
                    necessary_because="read(n) with a negative n returns everything up to EOF; `len(value) < n` never fires, so 'ff fe hello' "
